@@ -23,9 +23,10 @@ from rp2verif.common import Stats
 PROP = "C12"
 LEVEL = "fault_enumeration"
 
-KINDS = ("b", "I", "O", "T", "E", "h", "i", "o", "t")
-KIND_NAMES = {"b": "blank", "I": "IN", "O": "OUT", "T": "INTRA", "E": "TABLE END", "h": "header", "i": "IN row", "o": "OUT row", "t": "INTRA row"}
-TABLE_OF = {"I": "in", "O": "out", "T": "intra", "i": "in", "o": "out", "t": "intra"}
+KINDS = ("b", "I", "O", "T", "E", "h", "i", "o", "t", "f")
+KIND_NAMES = {"b": "blank", "I": "IN", "O": "OUT", "T": "INTRA", "E": "TABLE END", "h": "header", "i": "IN row", "o": "OUT row", "t": "INTRA row",
+              "f": "IN row with crypto fee"}
+TABLE_OF = {"I": "in", "O": "out", "T": "intra", "i": "in", "o": "out", "t": "intra", "f": "in"}
 LAYOUT = S.canonical_layout()
 WIDTH = S.ncols(LAYOUT)
 
@@ -51,6 +52,9 @@ def kind_cells(kind: str, n: int) -> List[Any]:
         return [S.TABLE_END] + [None] * (WIDTH - 1)
     if kind == "h":
         return S.header_cells("in", LAYOUT, WIDTH)
+    if kind == "f":
+        # an acquisition whose fee was paid in crypto: the parser models it as the acquisition plus an artificial fee-only disposal
+        return S.row_cells("in", LAYOUT, dict(good_row("in", n), crypto_fee="0.01"), WIDTH)
     return S.row_cells(TABLE_OF[kind], LAYOUT, good_row(TABLE_OF[kind], n), WIDTH)
 
 
@@ -138,7 +142,8 @@ def parse_sequence(seq: Sequence[str]) -> Tuple[Optional[Dict[str, List[int]]], 
         return None, exc
     got = {
         "in": sorted(t.row for t in data.unfiltered_in_transaction_set),
-        "out": sorted(t.row for t in data.unfiltered_out_transaction_set),
+        "out": sorted(t.row for t in data.unfiltered_out_transaction_set if t.row > 0),
+        "artificial_fee_rows": sum(1 for t in data.unfiltered_out_transaction_set if t.row < 0),
         "intra": sorted(t.row for t in data.unfiltered_intra_transaction_set),
     }
     return got, None
@@ -166,7 +171,7 @@ def judge_sequence(st: Stats, seq: Sequence[str], origin: str) -> None:
     if err is not None:
         st.violation(dict(base, signature=f"C12 structure: well-formed sheet rejected / {type(err).__name__}",
                           what=f"[{origin}] sheet rows: {text} :: rejected: {type(err).__name__}: {str(err)[:200]}"))
-    elif got != rows:
+    elif {k: v for k, v in got.items() if k != "artificial_fee_rows"} != rows or got["artificial_fee_rows"] != sum(1 for k in seq if k == "f"):
         st.violation(dict(base, signature="C12 structure: rows skipped or read twice", what=f"[{origin}] sheet rows: {text} :: parsed rows {got} != data rows {rows}"))
     else:
         st.sample({"sheet rows": text, "verdict": "accept", "parsed rows": got}, cap=1)
@@ -199,6 +204,9 @@ def base_sheets() -> List[str]:
                     seq += b + "h" + tables[b] * nrows + "E"
                 out.append(seq)
     out.append("bb" + "Ihii" + "E" + "bbb" + "OhoE" + "b")
+    out.append("IhfE")       # an IN table made only of crypto-fee acquisitions
+    out.append("IhffEOhoE")
+    out.append("IhifEThtE")
     return out
 
 
@@ -247,7 +255,8 @@ def base_input() -> Dict[str, List[Tuple[str, List[Dict[str, Any]]]]]:
         ins[0]["fiat_fee"] = "2"
         outs = [dict(good_row("out", 4, asset), crypto_fee="0.001", crypto_out_with_fee="0.501", fiat_out_no_fee="100", fiat_fee="0.2"),
                 dict(good_row("out", 5, asset), transaction_type="FEE", crypto_out_no_fee="0", crypto_fee="0.002")]
-        intras = [dict(good_row("intra", 6, asset), crypto_received="0.24"), dict(good_row("intra", 7, asset), spot_price=None)]
+        intras = [dict(good_row("intra", 6, asset), crypto_received="0.24"), dict(good_row("intra", 7, asset), spot_price=None),
+                  dict(good_row("intra", 9, asset), crypto_sent="0.002", crypto_received="0.001")]  # a fee of a thousandth of a coin is a fee
         out[asset] = [("in", ins), ("out", outs), ("intra", intras)]
     out["B3"] = [("in", [good_row("in", 8, "B3")])]  # a third configured asset (its name is what "asset differs from its sheet" writes into B1 / B2 rows)
     return out
@@ -320,7 +329,11 @@ def field_faults(table: str, row: Dict[str, Any]) -> Iterator[Tuple[str, str, Di
         yield f("spot_price", "negative number", "-1")
         yield f("spot_price", "text where a number is required", "abc")
         yield f("crypto_sent", "zero where a positive number is required", "0")
-        yield f("crypto_sent", "more received than sent", "0.1")
+        from fractions import Fraction
+
+        from rp2verif.history import dec
+
+        yield f("crypto_sent", "more received than sent", dec(Fraction(str(row["crypto_received"])) / 2))
         for fld in ("crypto_sent", "crypto_received"):
             yield f(fld, "negative number", "-1")
             yield f(fld, "text where a number is required", "abc")
@@ -657,7 +670,7 @@ def main(tier: str, budget_s: Optional[float] = None) -> int:
     for length in range(1, max_len + 1):
         pre = min(length, 2 if length < 7 else 3)
         run(f"(a1) all row-kind sequences of length {length}", a1_worker, [("".join(p), length) for p in itertools.product(KINDS, repeat=pre)])
-    pair_bases = base_sheets() if tier == "thorough" else ["IhiE", "IhiEOhoE", "OhoEbIhiiE", "IhiEThtEOhoE"]
+    pair_bases = base_sheets() if tier == "thorough" else ["IhiE", "IhiEOhoE", "OhoEbIhiiE", "IhfE"]
     run(f"(a2) every pair of edits of {len(pair_bases)} well-formed sheets", a2_worker, [(b, 2, i, 8) for b in pair_bases for i in range(8)])
     new, matched = common.report(PROP, total.violations)
     coverage = {
